@@ -297,6 +297,9 @@ end
 
 /-! ### expressions -/
 
+/-- the operators whose operands have to be boolean -/
+def boolOps : List String := ["And", "Or"]
+
 /-- `expression_is_number`; `none` = raises (look-up of an unresolvable attribute access) -/
 def exprIsNumber (env : Env) (vars : List (String × Ty)) : Expr → Option Bool
   | .lit (.num _ _) => some true
@@ -306,7 +309,9 @@ def exprIsNumber (env : Env) (vars : List (String × Ty)) : Expr → Option Bool
     | some ty => some (ty == .name "number")
     | none => none
   | .paren e => exprIsNumber env vars e
-  | .bin _ l r => match exprIsNumber env vars l with
+  | .bin op l r =>
+    if boolOps.contains op then some false   -- And / Or: a boolean, its operands are not looked at
+    else match exprIsNumber env vars l with
     | some true => exprIsNumber env vars r
     | other => other
   | .not _ => some false    -- a negation is a boolean
@@ -320,9 +325,6 @@ def exprIsString (env : Env) (vars : List (String × Ty)) : Expr → Option Bool
     | none => none
   | .paren e => exprIsString env vars e      -- parentheses do not change the type
   | _ => some false
-
-/-- the operators whose operands have to be boolean -/
-def boolOps : List String := ["And", "Or"]
 
 /-- `expression_is_boolean` (on an operand that has passed `check_expression`); `none` = raises -/
 def exprIsBoolean (env : Env) (vars : List (String × Ty)) : Expr → Option Bool
